@@ -609,12 +609,16 @@ def replay(specs, engines, path):
         case, count = jd['from'], jd['count']
     else:
         count = 1
-    job = Job(jd['engine'], jd['variant'], jd['seed'], case, count, jd['args'], jd['env'], valgrind=jd.get('valgrind', False),
-              tsan=jd.get('tsan', False), restart=False, label='replay')
+    sens = engines[jd['engine']].get('schedule_sensitive')
+    # deterministic engines: the one case. Schedule-sensitive engines: the case several times, then the whole
+    # slice of cases the job ran (same seed, same perturbation), because the witness depends on timing.
+    plan = [(case, count)] * (6 if sens else 1) + ([(jd['from'], jd['count'])] * 4 if sens else [])
     prop = rec.get('check', rec['property'])
-    tries = 20 if engines[jd['engine']].get('schedule_sensitive') else 1
-    exe = build_engine(engines, job.engine, job.variant)
-    for t in range(tries):
+    tries = len(plan)
+    exe = build_engine(engines, jd['engine'], jd['variant'])
+    for t, (frm, cnt) in enumerate(plan):
+        job = Job(jd['engine'], jd['variant'], jd['seed'], frm, cnt, jd['args'], jd['env'], valgrind=jd.get('valgrind', False),
+                  tsan=jd.get('tsan', False), restart=False, label='replay')
         rundir = os.path.join(BUILD, 'run', 'replay-%d' % os.getpid())
         shutil.rmtree(rundir, ignore_errors=True)
         os.makedirs(rundir)
@@ -623,7 +627,7 @@ def replay(specs, engines, path):
         others = [x for x in r.viols if x not in hits]
         shutil.rmtree(rundir, ignore_errors=True)
         if hits:
-            print('REPRODUCED (attempt %d): property=%s key=%s\n%s' % (t + 1, rec['property'], rec['key'], hits[0].get('detail', '')[:2000]))
+            print('REPRODUCED (attempt %d, cases %d..%d): property=%s key=%s\n%s' % (t + 1, frm, frm + cnt - 1, rec['property'], rec['key'], hits[0].get('detail', '')[:2000]))
             return 1
         if others:
             print('different violation on replay: %s' % json.dumps(others[0])[:1500])
